@@ -91,7 +91,7 @@ func faultOffsets(size int, bufSize int, fracs []uint16, dense bool) []int {
 }
 
 var faultStats struct {
-	faulted, body int64
+	faulted, body, fit int64
 }
 
 func runFaultCase(c faultCase) *Violation {
@@ -237,11 +237,30 @@ func runFaultCase(c faultCase) *Violation {
 			if lerr != nil {
 				return nil
 			}
-			_, serr := os.Stat(p2)
-			os.Remove(p2)
+			st2, serr := os.Stat(p2)
 			if merr == nil {
+				// the bytes of a merge output are not deterministic (section order), so
+				// this run's output may legitimately be a few bytes shorter and fit under
+				// the limit: success is acceptable only for a complete, correct file
+				if serr == nil && st2.Size() <= int64(off) {
+					d2, _ := os.ReadFile(p2)
+					v := checkFooter(prop, d2, want.Count, effMode(root.ChunkMode))
+					if v == nil {
+						v = reopenAndCompare(prop, p2, want, opts)
+					}
+					os.Remove(p2)
+					if v == nil {
+						faultStats.fit++
+						continue
+					}
+					v.Signature = "merge/fault-swallowed"
+					v.Message = fmt.Sprintf("Merge returned nil under a %d-byte limit (fault-free size %d, buffer %d) and its file is not complete: %s", off, len(data), c.BufSize, v.Message)
+					return v
+				}
+				os.Remove(p2)
 				return violation(prop, "merge/fault-swallowed", "Merge returned nil although the file system accepted only %d of %d bytes (buffer %d)", off, len(data), c.BufSize)
 			}
+			os.Remove(p2)
 			if serr == nil {
 				return violation(prop, "merge/file-left-behind", "Merge failed (%v) at offset %d of %d (buffer %d) but left a file at the path", merr, off, len(data), c.BufSize)
 			}
@@ -284,7 +303,7 @@ var c17 = Check[faultCase]{
 		return len(r.Docs) > 0, []string{"op=" + c.Op, fmt.Sprintf("buf=%d", c.BufSize)}
 	},
 	Extra: func() map[string]any {
-		return map[string]any{"faulted_operations": faultStats.faulted, "faults_strictly_inside_body": faultStats.body}
+		return map[string]any{"faulted_operations": faultStats.faulted, "faults_strictly_inside_body": faultStats.body, "merge_outputs_that_fit_under_the_limit": faultStats.fit}
 	},
 }
 
